@@ -513,6 +513,13 @@ func init() {
 			}
 			return iface{}
 		}
+		// a torn or extended document (strict prefix of a blob, or a blob followed by other
+		// bytes) is never valid JSON for an object/array destination
+		if len(data) > 0 {
+			if t, ok := data[0].(*Term); ok && t.op == OpVar && strings.HasPrefix(t.name, "json#") && strings.HasSuffix(t.name, "[0]") {
+				return in.newError(in.mkStr("json: truncated or trailing data (modelled)"))
+			}
+		}
 		// arbitrary bytes: decode error, or any value of the destination type.
 		// (no JSON document is empty; an object/array needs at least two bytes)
 		minLen := 1
